@@ -99,6 +99,12 @@ pub fn check(r: &mut QueryServerReadTransaction<'_>, snap: &Snap, n: usize) -> V
         let spn = vh::lookup_uuid2spn(r, u).ok().flatten();
         let rdn = vh::lookup_uuid2rdn(r, u).ok().flatten();
         if masked {
+            // the same uuid may also be carried by a live entry (created again after this one
+            // became a conflict entry): the tables then rightly resolve it, to that entry
+            let twin_live = snap.entries.iter().any(|o| o.get_uuid() == u && !(o.attribute_equality(Attribute::Class, &EntryClass::Recycled.into()) || o.attribute_equality(Attribute::Class, &EntryClass::Tombstone.into())));
+            if twin_live {
+                continue;
+            }
             if spn.is_some() || rdn.is_some() {
                 out.push(f("uuid2spn", "deleted entry still in uuid lookup tables".into(), format!("node {n}: {u} is recycled/tombstone but uuid2spn={spn:?} uuid2rdn={rdn:?}")));
             }
